@@ -90,10 +90,21 @@ def gen_pair(rnd, tier, lcs):
     pmax, hmax = (10, 14) if big else (8, 10)
     if lcs:
         pmax, hmax = (8, 9) if big else (6, 7)
-    kind = rnd.choice(['gnp', 'gnp', 'tree', 'forest', 'family', 'family', 'family', 'simple'])
+    kind = rnd.choice(['gnp', 'gnp', 'tree', 'forest', 'family', 'family', 'family', 'simple', 'symmetrised', 'symmetrised'])
     if kind == 'gnp':
         n = rnd.randint(2, pmax - 1)
         SG = nx.gnp_random_graph(n, rnd.choice([.3, .5, .7]), seed=rnd.randrange(10 ** 6))
+    elif kind == 'symmetrised':
+        # a random graph united with its image under a random involution: dense, irregular, with a non-trivial automorphism
+        # group (the class of graphs on which the symmetry analysis once accepted permutations that are no automorphisms)
+        n = rnd.randint(5, pmax)
+        SG = nx.gnp_random_graph(n, rnd.choice([.25, .4, .5, .6]), seed=rnd.randrange(10 ** 6))
+        inv = list(range(n))
+        rnd.shuffle(inv)
+        m = {}
+        for i in range(0, n - 1, 2):
+            m[inv[i]], m[inv[i + 1]] = inv[i + 1], inv[i]
+        SG.add_edges_from([(m.get(u, u), m.get(v, v)) for u, v in list(SG.edges)])
     elif kind == 'tree':
         n = rnd.randint(2, pmax)
         SG = nx.random_labeled_tree(n, seed=rnd.randrange(10 ** 6)) if n > 1 else nx.path_graph(1)
@@ -504,7 +515,7 @@ def run_case(params):
                 'pattern_disconnected': int(len(SG) > 0 and not nx.is_connected(SG)),
                 'pattern_kind_' + kind.split(':')[0]: 1})
         if p and ('sym' in p[0]) and not p[0].startswith(('nosym/', 'lcs-nosym/')):
-            # Is this the known false-symmetry defect of the pinned algorithm?  Only if (i) the violation reproduces with fresh
+            # Is this the false-symmetry defect of the pinned algorithm (repaired in 6edc4df; reported as a violation if it returns)?  Only if (i) the violation reproduces with fresh
             # objects and no shared cache, and (ii) the frozen copy of the pinned algorithm gives exactly the same wrong
             # answer on this very input.  Anything else is reported as a violation.
             try:
